@@ -44,7 +44,13 @@ type Record struct {
 func DecodeRecord(r io.Reader) (RecordType, []byte, uint32, error) {
 	var header [4]byte
 	if _, err := io.ReadFull(r, header[:]); err != nil {
-		if errors.Is(err, io.EOF) || errors.Is(err, io.ErrUnexpectedEOF) {
+		if errors.Is(err, io.ErrUnexpectedEOF) {
+			// 1-3 bytes of a length header: a torn record, not a clean end of
+			// the segment. Reporting it as such lets VerifyDir truncate the
+			// fragment instead of letting the next append land behind it.
+			return 0, nil, 0, utils.ErrPartialRecord
+		}
+		if errors.Is(err, io.EOF) {
 			return 0, nil, 0, io.EOF
 		}
 		return 0, nil, 0, err
